@@ -492,7 +492,7 @@ class Natives(object):
             alive = m.load(ch.proj(('f', 'rx_alive')), g)
             vec_push_back(m, ch, a[1], And(g, alive))
             return En(RES, Ite(alive, ZERO, ONE), {0: St(None, {0: UNIT}), 1: St(None, {0: St('SendError', {0: a[1]})})})
-        R('Sender::send', send, visible=True)
+        R('mpsc::Sender::send', send, visible=True)
         def recv_en(m, th, a, ph, g):
             rc = m.load(a[0], g)
             if not isinstance(rc, St): return FALSE
@@ -506,7 +506,7 @@ class Natives(object):
             n = m.load(ch.proj(('f', 'len')), g); has = Ugt(n, ZERO)
             v = vec_pop_front(m, ch, And(g, has))
             return En(RES, Ite(has, ZERO, ONE), {0: St(None, {0: payload(v, 1)}), 1: St(None, {0: St('RecvError', {})})})
-        R('Receiver::recv', recv, visible=True, enabled=recv_en)
+        R('mpsc::Receiver::recv', recv, visible=True, enabled=recv_en)
         # ---- Option / Result
         def take(m, th, a, g):
             v = m.load(a[0], g); m.store(a[0], NoneV(), g); return v
